@@ -2,60 +2,62 @@
   C20 — gene and collection aggregates are the stated functions of their children.
 
   Property theorems only (helper lemmas: Proofs/Agg*.lean).  `Model.Agg.*` mirrors gene/interval.py
-  (`_find_primary_feature`), gene/gene.py, gene/feature.py and gene/collections.py on parent-less objects;
-  `Spec.Agg.ok*` are the reference predicates the spec driver evaluates on the real library's answers;
-  `ansA` = the observable answer (`none` = raised).  Child lists are of ARBITRARY length.
+  (`_find_primary_feature`), gene/gene.py, gene/feature.py and gene/collections.py; `Spec.Agg.ok*` are the
+  reference predicates the spec driver evaluates on the real library's answers; `ansA` = the observable answer
+  (`none` = raised).  Child lists are of ARBITRARY length, children have any number of blocks.
 
-  Two variants of the flag test are modelled: `Rule.asCoded` (`if primary_feature:` — what /repo does today) and
-  `Rule.repaired` (`if primary_feature is not None:`).
+  `mkGene`, `mkFcoll`, `geneAccessors` are the code AS IT IS NOW (`currentRule = Rule.repaired`:
+  `if primary_feature is not None:` since 91b82e4; `gene_type=None` no longer raises in the merged features since
+  e559054).  The `…_before_repair` theorems pin the old behaviour as regression facts.
 -/
 import BioCantor.Proofs.AggMerged
 namespace BioCantor.Props.C20
 open BioCantor BioCantor.Spec BioCantor.Spec.Agg BioCantor.Model.Agg BioCantor.Proofs BioCantor.Proofs.Agg
 
-/-- T1 (repaired flag test): `GeneInterval(transcripts)` for EVERY child list — refused when empty or when more
+/-- T1 (the code as it is): `GeneInterval(transcripts)` for EVERY child list — refused when empty or when more
     than one child is flagged; otherwise span = (min start, max end), coding ⇔ some child is coding, the primary
     transcript is the flagged child, or else the lexicographic argmax of (CDS size, spliced length) with the
     EARLIEST index (stability of Python's sort), and `get_primary_cds` is that member's CDS. -/
-theorem gene_spec (cs : List Child) : okGene cs (ansA (mkGeneWith Rule.repaired cs)) = true :=
+theorem gene_spec (cs : List Child) : okGene cs (ansA (mkGene cs)) = true :=
   gene_ok cs
 
-/- FULL STATEMENT for the code as it is (does NOT hold — F-C20b, witness below):
-     ∀ cs, okGene cs (ansA (mkGeneWith Rule.asCoded cs)) = true
-   Proved part: every child list in which no FLAGGED child has spliced length 0. -/
+/-- T1b (the code as it is): the accessors — `get_primary_transcript`, `get_primary_feature`, `get_primary_cds`,
+    `get_primary_transcript_sequence`, `get_primary_feature_sequence`, `get_primary_cds_sequence`,
+    `get_primary_protein` — return the values of the primary member `p` (for arbitrary member methods `seq`,
+    `cdsSeq`, `prot`), the protein being `None` for a non-coding member; an empty list or several flags are refused. -/
+theorem primary_accessors_spec {α : Type} [DecidableEq α] (seq cdsSeq prot : Child → α) (cs : List Child) :
+    (cs = [] ∨ multiFlag cs = true) ∧ ansA (geneAccessors seq cdsSeq prot cs) = none ∨
+    ∃ p c a, geneAccessors seq cdsSeq prot cs = .ok a ∧ cs[p]? = some c ∧ okPrimary cs p = true ∧
+      okAccessors seq cdsSeq prot c p a = true :=
+  geneAccessors_ok seq cdsSeq prot cs
 
-/-- T1 for the code as written, when no flagged child has length 0. -/
-theorem gene_spec_asCoded_partial (cs : List Child) (h : ∀ c ∈ cs, c.primary = true → c.len ≠ 0) :
-    okGene cs (ansA (mkGeneWith Rule.asCoded cs)) = true := by
-  rw [gene_coded_eq cs h]; exact gene_ok cs
-
-/-- F-C20b witness: a flagged zero-length transcript followed by a second flagged transcript is accepted by the
-    code as written (the second becomes primary); the property demands a refusal, which the repaired test gives. -/
-theorem f_c20b_witness :
+/-- F-C20b regression fact: before 91b82e4 (`if primary_feature:`) a flagged zero-length transcript followed by a
+    second flagged transcript was accepted (the second became primary); the code as it is refuses it. -/
+theorem f_c20b_before_repair :
     ansA (mkGeneWith Rule.asCoded
       [⟨.plus, true, (3, 3), [], none, []⟩, ⟨.plus, true, (0, 4), [], none, []⟩]) =
       some ⟨0, 4, false, 1, none⟩ ∧
     okGene [⟨.plus, true, (3, 3), [], none, []⟩, ⟨.plus, true, (0, 4), [], none, []⟩] (some ⟨0, 4, false, 1, none⟩) = false ∧
-    ansA (mkGeneWith Rule.repaired
-      [⟨.plus, true, (3, 3), [], none, []⟩, ⟨.plus, true, (0, 4), [], none, []⟩]) = none := by
+    ansA (mkGene [⟨.plus, true, (3, 3), [], none, []⟩, ⟨.plus, true, (0, 4), [], none, []⟩]) = none := by
   decide
 
-/-- T2 (repaired flag test): `FeatureIntervalCollection(feature_intervals)` for every child list — span, primary
+/-- regression fact: away from flagged zero-length children the old test and the new one agree on every child list. -/
+theorem flag_test_before_repair_agrees (cs : List Child) (h : ∀ c ∈ cs, c.primary = true → c.len ≠ 0) :
+    mkGeneWith Rule.asCoded cs = mkGene cs ∧ mkFcollWith Rule.asCoded cs = mkFcoll cs :=
+  ⟨gene_coded_eq cs h, fcoll_coded_eq cs h⟩
+
+/-- T2 (the code as it is): `FeatureIntervalCollection(feature_intervals)` for every child list — span, primary
     feature (flag, else longest spliced length, else earliest), feature types = the union of the children's types. -/
-theorem fcoll_spec (cs : List Child) : okFcoll cs (ansA (mkFcollWith Rule.repaired cs)) = true :=
+theorem fcoll_spec (cs : List Child) : okFcoll cs (ansA (mkFcoll cs)) = true :=
   fcoll_ok cs
 
-/-- T2 for the code as written, when no flagged child has length 0. -/
-theorem fcoll_spec_asCoded_partial (cs : List Child) (h : ∀ c ∈ cs, c.primary = true → c.len ≠ 0) :
-    okFcoll cs (ansA (mkFcollWith Rule.asCoded cs)) = true := by
-  rw [fcoll_coded_eq cs h]; exact fcoll_ok cs
-
-/-- T3: `get_merged_transcript` (children on ONE strand, valid blocks, gene_type set): a plus-strand feature
+/-- T3: `get_merged_transcript` (children on ONE strand, each with ANY number of valid blocks; `ht` = whether
+    gene_type is set — it no longer matters): a plus-strand feature
     whose blocks are valid and cover exactly the union of all children's blocks (every position, unbounded).
     The union step is `Model.unionWithSingle` (location_impl.py, shared with C02). -/
-theorem merged_transcript_spec (cs : List Child) (st : Strand) (hne : cs ≠ [])
+theorem merged_transcript_spec (ht : Bool) (cs : List Child) (st : Strand) (hne : cs ≠ [])
     (hst : ∀ c ∈ cs, c.strand = st) (hv : ∀ c ∈ cs, ∀ b ∈ c.blocks, b.1 ≤ b.2) :
-    okMergedAll cs (ansA (mergedTranscript true cs)) = true := by
+    okMergedAll cs (ansA (mergedTranscript ht cs)) = true := by
   have hne' : (cs.flatMap fun c => singlesOf c.strand c.blocks) ≠ [] := by
     obtain ⟨c, rest, rfl⟩ := List.exists_cons_of_ne_nil hne
     simp only [List.flatMap_cons]
@@ -77,7 +79,7 @@ theorem merged_transcript_spec (cs : List Child) (st : Strand) (hne : cs ≠ [])
         obtain ⟨c, hc, hx⟩ := hx
         exact hv c hc _ (singlesOf_mem hx).2)
   unfold mergedTranscript okMergedAll okMergedBlocks
-  rw [ho]
+  rw [produceMerged_ht, ho]
   simp only [ansA_ok, beq_self_eq_true, Bool.true_and, hov, Bool.and_eq_true, Bool.not_eq_true', List.isEmpty_eq_false_iff]
   refine ⟨hone, sameCover_of_forall fun q => ?_⟩
   rw [hoc, List.map_flatMap]
@@ -87,12 +89,12 @@ theorem merged_transcript_spec (cs : List Child) (st : Strand) (hne : cs ≠ [])
 theorem merged_feature_spec (cs : List Child) (st : Strand) (hne : cs ≠ [])
     (hst : ∀ c ∈ cs, c.strand = st) (hv : ∀ c ∈ cs, ∀ b ∈ c.blocks, b.1 ≤ b.2) :
     okMergedAll cs (ansA (mergedFeature cs)) = true :=
-  merged_transcript_spec cs st hne hst hv
+  merged_transcript_spec true cs st hne hst hv
 
 /-- T3c: `get_merged_cds`: refused exactly when no transcript is coding, else the union of the CDS blocks. -/
-theorem merged_cds_spec (cs : List Child) (st : Strand)
+theorem merged_cds_spec (ht : Bool) (cs : List Child) (st : Strand)
     (hst : ∀ c ∈ cs, c.strand = st) (hv : ∀ c ∈ cs, ∀ l, c.cds = some l → l ≠ [] ∧ ∀ b ∈ l, b.1 ≤ b.2) :
-    okMergedCds cs (ansA (mergedCds true cs)) = true := by
+    okMergedCds cs (ansA (mergedCds ht cs)) = true := by
   unfold okMergedCds mergedCds
   by_cases hcod : cs.any Child.coding = true
   · have hne' : (cs.flatMap cdsSingles) ≠ [] := by
@@ -130,7 +132,7 @@ theorem merged_cds_spec (cs : List Child) (st : Strand)
           | some l => rw [hl] at hx; exact (hv c hc l hl).2 _ (singlesOf_mem hx).2)
     have hie : (cs.flatMap cdsSingles).isEmpty = false := by
       simpa using hne'
-    simp only [hcod, if_true, hie, Bool.false_eq_true, if_false, ho, ansA_ok, okMergedBlocks, beq_self_eq_true,
+    simp only [hcod, if_true, hie, Bool.false_eq_true, if_false, produceMerged_ht ht, ho, ansA_ok, okMergedBlocks, beq_self_eq_true,
       Bool.true_and, hov, Bool.and_eq_true, Bool.not_eq_true', List.isEmpty_eq_false_iff]
     refine ⟨hone, sameCover_of_forall fun q => ?_⟩
     rw [hoc, List.map_flatMap]
@@ -183,13 +185,15 @@ theorem merged_mixed_strands_raise (ht : Bool) (cs : List Child) (hv : ∀ c ∈
       exact ⟨x, hx, y, hy, by rw [hxs, hys]; exact hne⟩
   exact ⟨h1, by rw [h1]; rfl⟩
 
-/-- T4: `AnnotationCollection(genes, feature_collections, start, end)` — `len` counts genes and feature
+/-- T4: `AnnotationCollection(genes, feature_collections, start, end, parent)` — `len` counts genes and feature
     collections, `is_empty` ⇔ no member, iteration = the chain genes ++ feature_collections sorted by start with
-    ties in chain order (stable), bounds = the explicit ones (both or neither; start ≤ end) or else
-    (min start, max end) of the members, none for an empty collection. -/
-theorem acoll_spec (genes fcs : List Member) (bnd : Option Nat × Option Nat) (hd : KeysDistinct (genes ++ fcs)) :
-    okAcoll genes fcs bnd (ansA (mkAcoll genes fcs bnd)) = true :=
-  acoll_ok genes fcs bnd hd
+    ties in chain order (stable); bounds = the explicit ones (both or neither; start ≤ end), else the location `pb`
+    of the parent's chromosome ancestor when there is one, else (min start, max end) of the members, none for an
+    empty collection without either. -/
+theorem acoll_spec (pb : Option (Nat × Nat)) (genes fcs : List Member) (bnd : Option Nat × Option Nat)
+    (hd : KeysDistinct (genes ++ fcs)) :
+    okAcollP pb genes fcs bnd (ansA (mkAcollP pb genes fcs bnd)) = true :=
+  acollP_ok pb genes fcs bnd hd
 
 /-- T4b: the iteration order on its own: sorted by start, a permutation, members of equal start in input order. -/
 theorem children_sorted_stable (ms : List Member) : isStableSortByStart ms (sortMembers ms) = true :=
